@@ -525,10 +525,15 @@ func (fg *FnGen) loopLocalOnly(fr *Frame, li *loopInfo, set map[string]bool) map
 	for b := range li.body {
 		for _, ins := range b.Instrs {
 			switch x := ins.(type) {
-			case *ssa.Alloc:
+			case *ssa.Alloc, *ssa.MakeSlice:
 				continue
 			case *ssa.Store:
 				if inLoopAlloc(x.Addr) {
+					continue
+				}
+			case *ssa.Call:
+				// append is modelled as writing a freshly allocated backing array only
+				if b, ok := x.Call.Value.(*ssa.Builtin); ok && b.Name() == "append" {
 					continue
 				}
 			}
@@ -542,7 +547,7 @@ func (fg *FnGen) loopLocalOnly(fr *Frame, li *loopInfo, set map[string]bool) map
 	}
 	out := map[string]bool{}
 	for n := range set {
-		if !external[n] && (strings.HasPrefix(n, "HP:") || strings.HasPrefix(n, "H:")) && strings.HasPrefix(fg.stateSorts[n], "(Array Int ") {
+		if !external[n] && (strings.HasPrefix(n, "HP:") || strings.HasPrefix(n, "H:") || strings.HasPrefix(n, "Mem")) && strings.HasPrefix(fg.stateSorts[n], "(Array Int ") {
 			out[n] = true
 		}
 	}
@@ -765,6 +770,23 @@ func (fg *FnGen) enterLoop(fr *Frame, li *loopInfo, st *State) *State {
 			srt := fg.stateSorts[n]
 			r := Bound(fg.freshName("lr"), SInt)
 			fg.assume(Forall([]*Term{r}, Implies(Le(r, preClock), Eq(Select(fg.lookup(hst, n, srt), r), Select(fg.lookup(st, n, srt), r)))))
+			// ready-made instances for the objects the parameters refer to (saves the solvers an instantiation step)
+			for _, p := range fr.fn.Params {
+				pv, ok := fr.vals[p]
+				if !ok {
+					continue
+				}
+				switch p.Type().Underlying().(type) {
+				case *types.Slice:
+					if strings.HasPrefix(n, "Mem") {
+						fg.assume(Eq(Select(fg.lookup(hst, n, srt), SBase(pv)), Select(fg.lookup(st, n, srt), SBase(pv))))
+					}
+				case *types.Pointer:
+					if !strings.HasPrefix(n, "Mem") {
+						fg.assume(Eq(Select(fg.lookup(hst, n, srt), pv), Select(fg.lookup(st, n, srt), pv)))
+					}
+				}
+			}
 		}
 	}
 	// phis become fresh constants (done in step for *ssa.Phi at a header); evaluate them first so invariants can refer to them
